@@ -76,6 +76,16 @@ func genC12(tier string, seed int64) []Case {
 		}
 	}
 	rec(nil)
+	// snapshot mode: an invocation that arrives while the runtime is between restore/next and its first next
+	for _, seq := range [][]string{
+		{"restnext", "offerEarly", "next", "resp", "next"},
+		{"restnext", "offerEarly", "next", "err", "nextHold", "offer", "resp"},
+		{"restnext", "offerEarly", "resterr"},
+		{"restnext", "offerEarly", "nextHold", "resp", "next", "resp"},
+		{"restnext", "offerEarly", "unknown", "next", "respBig", "next"},
+	} {
+		add(c12Desc{Snapshot: true, Seq: seq})
+	}
 	// longer, sampled sequences biased towards progress (so that deep states are reached)
 	r := rng(seed, "C12")
 	n := 300
@@ -221,6 +231,20 @@ func runC12(c *Ctx, d c12Desc) {
 				}
 			}
 			continue
+		case "offerEarly":
+			// an invocation arrives while the runtime has been released from restore/next and has not asked for next yet
+			if m.snapshot && m.state == "Restoring" && pendingInv == nil && parked == nil {
+				before := w.Hk.Arrived()["invoke.reserved"]
+				invN++
+				pendingPayload = []byte(fmt.Sprintf("event-%d", invN))
+				invN--
+				pendingInv = w.E.InvokeAsync(pendingPayload, vh.InvokeOpts{})
+				for dl := time.Now().Add(2 * time.Second); w.Hk.Arrived()["invoke.reserved"] == before && time.Now().Before(dl); {
+					time.Sleep(100 * time.Microsecond)
+				}
+				time.Sleep(2 * time.Millisecond)
+			}
+			continue
 		case "restoreEvt":
 			if !m.snapshot || restoreUsed || parked == nil || parkedOp != "next" || m.state != "Parked" || invN != 0 {
 				continue
@@ -260,9 +284,18 @@ func runC12(c *Ctx, d c12Desc) {
 			if blocking {
 				prev := m.state
 				a := vh.Go(func() *vh.Resp { return conn1.Next() })
-				if pendingInv != nil && prev == "Started" {
-					// an invocation is already waiting: this first next completes the initialisation and is served at once
+				if pendingInv != nil && (prev == "Started" || prev == "Restoring") {
+					// an invocation is already waiting: this first next completes the initialisation / the restore and is served at once
 					parked, parkedOp, m.state = a, "next", "Parked"
+					if prev == "Restoring" && restoreDone != nil {
+						select {
+						case err := <-restoreDone:
+							c.Check(err == nil, "restore_completes", "C12/restore-result", "restore returned an error although the runtime asked for next", fmt.Sprint(err))
+						case <-time.After(5 * time.Second):
+							c.Check(false, "restore_completes", "C12/restore-hangs", "restore did not return after the runtime asked for next", nil)
+						}
+						restoreDone = nil
+					}
 					if !deliver() {
 						return
 					}
